@@ -589,11 +589,25 @@ pub fn apply_tamper(t: &Tamper, tx: &mut Transaction, spent: &mut Vec<TxOut>, do
             let Some(i) = pick(&value_conf_outs, *out) else { return false };
             let mut p = Prng::from_u64(*seed);
             let mut s = tx.output[i].script_pubkey.to_bytes();
-            if s.is_empty() || p.chance(1, 4) {
-                s.push(p.u8());
-            } else {
-                let k = p.usize_below(s.len());
-                s[k] ^= 1 << p.below(8);
+            let old = s.clone();
+            match p.below(8) {
+                // the empty script (what a fee output carries), an OP_RETURN script, another output's script, a truncation
+                0 => s.clear(),
+                1 => s = Script::new_op_return(&p.bytes(4)).to_bytes(),
+                2 => {
+                    let j = p.usize_below(tx.output.len());
+                    s = tx.output[j].script_pubkey.to_bytes();
+                }
+                3 if !s.is_empty() => s.truncate(p.usize_below(s.len())),
+                4 => s.push(p.u8()),
+                _ if s.is_empty() => s.push(p.u8()),
+                _ => {
+                    let k = p.usize_below(s.len());
+                    s[k] ^= 1 << p.below(8);
+                }
+            }
+            if s == old {
+                return false;
             }
             tx.output[i].script_pubkey = Script::from(s);
             true
